@@ -110,6 +110,7 @@ class Pack(Family):
         data = ba._data
         Q = dim_term(data.shape_[0])
         ctx.prove("post.n_registers==ceil(n/k)", Q == (n + k - 1) / k)
+        ctx.prove("frame.input array not written and not aliased by the registers", z3.BoolVal(a.buf.writes == 0 and data.buf is not a.buf))
         ctx.prove("post.shape==(n,)", I(ba._shape[0]) == n)
         q = z3.Int("q")
         ctx.skolem(z3.And(0 <= q, q < Q))
